@@ -355,10 +355,24 @@ class Interp(object):
                     self.cond_stack.pop()
                 if not f2.env.get("__dead__"):
                     branches.append(f2.env)
+                    f2.env["__conds__"] = tuple(self.cond_stack) + ((s.test, take, fr),)
             if not branches:
                 env["__dead__"] = True
             else:
+                conds = [b.pop("__conds__") for b in branches]
                 merged = self.join_envs(branches)
+                if len(branches) > 1:
+                    # a slice object chosen per branch and used later: keep each alternative with the conditions it was chosen under
+                    for k_, v_ in list(merged.items()):
+                        if isinstance(v_, Other) and v_.tag == "slice" and v_.info is None and all(isinstance(b.get(k_), Other) and b[k_].tag == "slice" and isinstance(b[k_].info, tuple) for b in branches):
+                            alts = []
+                            for b, cs in zip(branches, conds):
+                                inf = b[k_].info
+                                if inf and inf[0] == "alts":
+                                    alts.extend(inf[1])
+                                else:
+                                    alts.append((cs, inf))
+                            merged[k_] = Other("slice", ("alts", tuple(alts)))
                 env.clear()
                 env.update(merged)
         elif isinstance(s, ast.For):
@@ -1338,6 +1352,17 @@ class ArrayInterp(Interp):
         self.unsupported("index into %r" % (base,), e, fr)
 
     def sub_arr(self, base, idx, e, fr):
+        if isinstance(idx, Other) and idx.tag == "slice" and isinstance(idx.info, tuple) and len(idx.info) == 2 and idx.info[0] == "alts":
+            out = None
+            saved = self.cond_stack
+            for cs, inf in idx.info[1]:
+                self.cond_stack = list(saved) + [c for c in cs if c not in saved]
+                try:
+                    r_ = self.sub_arr(base, Other("slice", inf), e, fr)
+                finally:
+                    self.cond_stack = saved
+                out = r_ if out is None else self.join(out, r_)
+            return out
         if isinstance(idx, Other) and idx.tag == "slice" and not (isinstance(idx.info, tuple) and len(idx.info) == 2):
             idx = Other("slice", (Other("opaque"), Other("opaque")))  # a slice whose bounds differ between the paths that reach here
         is_slice = isinstance(idx, Other) and idx.tag == "slice"
